@@ -1126,8 +1126,17 @@ func (vfs *MemFS) Truncate(name string, size int64) error {
 
 	avfs.VerifBeforeLock(&c.mu, true)
 	c.mu.Lock()
+	defer c.mu.Unlock()
+
+	if !c.checkPermission(avfs.OpenWrite, vfs.User()) {
+		if vfs.OSType() == avfs.OsWindows {
+			op = "open"
+		}
+
+		return &fs.PathError{Op: op, Path: name, Err: vfs.err.PermDenied}
+	}
+
 	c.truncate(size)
-	c.mu.Unlock()
 
 	return nil
 }
